@@ -36,6 +36,14 @@ def headerHash (wrapperTag : Nat) (span : Bytes) : Bytes :=
   else if wrapperTag = 1 then blake2b256 (byronPrefixed 1 span)
   else blake2b256 span
 
+/-- `MultiEraHeader::decode(tag, subtag, cbor)` then `hash()`: tag 0 is Byron — subtag `Some(0)` the
+    epoch-boundary header (prefix `82 00`), anything else the main-block header (prefix `82 01`);
+    tags ≥ 1 are the Shelley-and-later headers (no prefix) -/
+def headerHashN2N (tag : Nat) (subtag : Option Nat) (span : Bytes) : Bytes :=
+  if tag = 0 then
+    (if subtag = some 0 then blake2b256 (byronPrefixed 0 span) else blake2b256 (byronPrefixed 1 span))
+  else blake2b256 span
+
 /-- block hash = hash of the header item `bs[1][0]` -/
 def blockHash (bs : Bytes) : Option Bytes :=
   match viewBlock bs with
